@@ -27,6 +27,7 @@
             "BADRC <rc>@<call>"                         undocumented return code
             "BOUNDS <inlen>/<insize>@<call>"            inlen/insize outside 0 <= inlen <= insize <= SSL_MAX_BUF_SIZE
             "FRAGSIZE <n>@<call>"                       handshake reassembly buffer above the 64 KB + header limit
+            "ARGCAP <function>:claimed=..."             a length argument claims more room than the target object has
             "CRASH sig=<n>"                             died without a sanitizer report
    Unit operations (compared with the extracted Coq model, ocaml/drv_c08.ml): see the `u` section below.
 */
@@ -70,6 +71,7 @@ static int g_default_pmtu;
 static int mk_pair(const wcfg_t *c)
 {
     g_cfg = c;
+    ent_seed(99);       /* matrixSslOpen() below draws global secrets (DTLS cookie key ...): independent of what ran before */
     if (!c->dtls) {
         scfg_t s; memset(&s, 0, sizeof s); s.cca = 1; s.seed = 7;
         s.ncver = 1; s.cver[0] = c->cmin; s.nsver = 1; s.sver[0] = c->smin;
@@ -165,7 +167,7 @@ static int check_inv(ssl_t *s, int rc, int fed)
    C08_PAINT=<hex byte> in the environment: the unused stack below the current frame is filled with that byte before
    every API call and - through link-time wrappers of functions the parsers call between their own sub-parsers
    (psParseBufFromStaticData, psParseTlsVariableLengthVec, psParseBufCopyN, sslUpdateHSHash, tls13TranscriptHashUpdate) -
-   in the middle of a call, so that a local the library forgot to initialise holds the paint instead of what an earlier
+   in the middle of a call (after the wrapped function returned, i.e. when the stack below the parser is free again), so that a local the library forgot to initialise holds the paint instead of what an earlier
    callee left there.  The same case run with two paints must give the same observables.  (Heap: ASAN_OPTIONS
    malloc_fill_byte, set by the check.)  In this mode `x` results carry every observable:
    " err=<ssl->err> out=<n>:<fnv of bytes sent + queued> pt=<n>:<fnv of delivered plaintext> sni=<hex> alpn=<hex>" */
@@ -180,15 +182,25 @@ static __attribute__((noinline)) void poison_stack(int byte)
 }
 #define PAINT() do { if (g_paint >= 0) poison_stack(g_paint); } while (0)
 int32_t __real_psParseBufFromStaticData(psParseBuf_t *pb, const void *data, size_t len);
-int32_t __wrap_psParseBufFromStaticData(psParseBuf_t *pb, const void *data, size_t len) { PAINT(); return __real_psParseBufFromStaticData(pb, data, len); }
+int32_t __wrap_psParseBufFromStaticData(psParseBuf_t *pb, const void *data, size_t len) { int32_t r = __real_psParseBufFromStaticData(pb, data, len); PAINT(); return r; }
 int __real_psParseTlsVariableLengthVec(const unsigned char *start, const unsigned char *end, psSizeL_t minLen, psSizeL_t maxLen, psSizeL_t *vecDataLen);
 int __wrap_psParseTlsVariableLengthVec(const unsigned char *start, const unsigned char *end, psSizeL_t minLen, psSizeL_t maxLen, psSizeL_t *vecDataLen)
-{ PAINT(); return __real_psParseTlsVariableLengthVec(start, end, minLen, maxLen, vecDataLen); }
+{ int r = __real_psParseTlsVariableLengthVec(start, end, minLen, maxLen, vecDataLen); PAINT(); return r; }
 int32_t __real_psParseBufCopyN(const psParseBuf_t *pb, size_t reqLen, unsigned char *target, size_t *targetlen);
+/* psParseBufCopyN takes the room in `target` in *targetlen: a caller that claims more room than the object has (an
+   uninitialised or stale length) is a defect whatever the value happens to be; ASan knows the object */
+static char g_argcap[96];
 int32_t __wrap_psParseBufCopyN(const psParseBuf_t *pb, size_t reqLen, unsigned char *target, size_t *targetlen)
-{ PAINT(); return __real_psParseBufCopyN(pb, reqLen, target, targetlen); }
+{
+    if (target && targetlen && *targetlen && !g_argcap[0]) {
+        size_t n = *targetlen > (1u << 20) ? (1u << 20) : *targetlen;
+        if (__asan_region_is_poisoned(target, n))
+            snprintf(g_argcap, sizeof g_argcap, "ARGCAP psParseBufCopyN:claimed=%s", *targetlen > (1u << 20) ? "huge" : "beyond-object");
+    }
+    int32_t r = __real_psParseBufCopyN(pb, reqLen, target, targetlen); PAINT(); return r;
+}
 int32_t __real_tls13TranscriptHashUpdate(ssl_t *ssl, const unsigned char *in, psSize_t len);
-int32_t __wrap_tls13TranscriptHashUpdate(ssl_t *ssl, const unsigned char *in, psSize_t len) { PAINT(); return __real_tls13TranscriptHashUpdate(ssl, in, len); }
+int32_t __wrap_tls13TranscriptHashUpdate(ssl_t *ssl, const unsigned char *in, psSize_t len) { int32_t r = __real_tls13TranscriptHashUpdate(ssl, in, len); PAINT(); return r; }
 
 /* drain the output of a peer; DTLS through matrixDtlsGetOutdata. sink: called per chunk (may be NULL) */
 typedef void (*sink_t)(peer_t *from, const unsigned char *b, int n);
@@ -376,14 +388,19 @@ static void child_x(int to, const char *flags, char **hex, int nhex)
         ssl_t *q = p->ssl; n = (int) strlen(line);
         if (q->outlen > 0 && q->outbuf) { obs_mix(&g_obs_out, q->outbuf, (size_t) q->outlen); g_obs_outn += q->outlen; }
         n += snprintf(line + n, sizeof line - n, " err=%d out=%ld:%08x pt=%ld:%08x alpn=", (int) q->err, g_obs_outn, g_obs_out, g_obs_ptn, g_obs_pt);
+#ifdef USE_ALPN
         if (!q->alpn || q->alpnLen <= 0) n += snprintf(line + n, sizeof line - n, "-");
         else for (int i = 0; i < q->alpnLen && i < 32; i++) n += snprintf(line + n, sizeof line - n, "%02x", (unsigned char) q->alpn[i]);
+#else
+        n += snprintf(line + n, sizeof line - n, "off");
+#endif
     }
     if (strchr(flags, 's') || g_paint >= 0) {
         n = (int) strlen(line); n += snprintf(line + n, sizeof line - n, " sni=");
         if (!p->ssl->expectedName) n += snprintf(line + n, sizeof line - n, "-");
         else for (int i = 0; i < 64 && p->ssl->expectedName[i]; i++) n += snprintf(line + n, sizeof line - n, "%02x", (unsigned char) p->ssl->expectedName[i]);
     }
+    if (g_argcap[0] && !g_verdict[0]) snprintf(g_verdict, sizeof g_verdict, "%s", g_argcap);
     if (g_verdict[0]) { emit(g_verdict); _exit(0); }
     /* delete everything that belongs to the sessions, then look for leaks */
     drop_pair(); matrixSslClose();
@@ -441,6 +458,8 @@ static void op_cap(const char *cfg)
     fprintf(g_out, "\n"); fflush(g_out);
 }
 
+static void body_cap(void *arg) { op_cap((const char *) arg); fflush(g_out); _exit(0); }
+
 /*UNIT-OPS*/
 /* ------------------------------------------------------------------ unit operations (model correspondence)
    All of them: u <op> <cfg> <k> <c|s> ... ; the parent replays the first k units of the legal transcript of
@@ -478,7 +497,6 @@ static char g_hlog[2048]; static int g_hlogn, g_hlog_on;
 int32_t __real_sslUpdateHSHash(ssl_t *ssl, const unsigned char *in, psSize_t len);
 int32_t __wrap_sslUpdateHSHash(ssl_t *ssl, const unsigned char *in, psSize_t len)
 {
-    PAINT();
     if (g_hlog_on && ssl == g_ussl && g_hlogn < (int) sizeof g_hlog - 64) {
         if (ssl->fragMessage && in >= ssl->fragMessage && in <= ssl->fragMessage + ssl->fragLenStored && (ACTV_VER(ssl, v_dtls_any)))
             g_hlogn += snprintf(g_hlog + g_hlogn, sizeof g_hlog - g_hlogn, " F%d:%d:%08x", (int) (in - ssl->fragMessage), (int) len, fnv32(in, len));
@@ -487,7 +505,7 @@ int32_t __wrap_sslUpdateHSHash(ssl_t *ssl, const unsigned char *in, psSize_t len
         else if (g_hlog_on == 2) g_hlogn += snprintf(g_hlog + g_hlogn, sizeof g_hlog - g_hlogn, " S%d", (int) len);
         else g_hlogn += snprintf(g_hlog + g_hlogn, sizeof g_hlog - g_hlogn, " H%d:%08x", (int) len, fnv32(in, len));
     }
-    return __real_sslUpdateHSHash(ssl, in, len);
+    { int32_t r = __real_sslUpdateHSHash(ssl, in, len); PAINT(); return r; }
 }
 
 /* scripted decoder for `u api` */
@@ -676,8 +694,25 @@ static void child_pb(void *v)
     line[n] = 0; emit(line); free(obj); _exit(0);
 }
 
+/* u paint   positive control of the stack painter: a frame opened right after a paint point must see nothing but the
+   paint byte in its uninitialised locals (no fake stack, no compiler initialisation, the painter not optimised away) */
+static __attribute__((noinline)) void probe_stack(int *lo, int *hi)
+{
+    volatile unsigned char junk[8192];
+    __asm__ __volatile__("" : : "r"(junk) : "memory");
+    *lo = 255; *hi = 0;
+    for (int i = 512; i < 8192 - 512; i += 8) { int c = junk[i]; if (c < *lo) *lo = c; if (c > *hi) *hi = c; }
+}
+static void child_paint(void *v)
+{
+    (void) v; char line[64]; int lo = -1, hi = -1;
+    PAINT(); probe_stack(&lo, &hi);
+    snprintf(line, sizeof line, "paint:%02x-%02x", lo, hi); emit(line); _exit(0);
+}
+
 static void op_unit(void)
 {
+    if (g_ntok >= 2 && !strcmp(g_tok[1], "paint")) { run_forked(child_paint, NULL); return; }
     if (g_ntok >= 5 && !strcmp(g_tok[1], "pb")) { run_forked(child_pb, NULL); return; }
     if (g_ntok < 5) { emit("BADCASE"); return; }
     int rc = prepare_state(g_tok[2], atoi(g_tok[3]));
@@ -696,7 +731,7 @@ int main(void)
     if (getenv("C08_PAINT")) g_paint = (int) strtol(getenv("C08_PAINT"), NULL, 16) & 0xff;
     g_quiet = 1;
     while (next_case()) {
-        if (g_ntok >= 2 && !strcmp(g_tok[0], "cap")) op_cap(g_tok[1]);
+        if (g_ntok >= 2 && !strcmp(g_tok[0], "cap")) run_forked(body_cap, g_tok[1]);     /* a sanitizer abort costs this trace only */
         else if (g_ntok >= 6 && !strcmp(g_tok[0], "x")) {
             int k = atoi(g_tok[2]); int rc = prepare_state(g_tok[1], k);
             if (rc < 0) { fprintf(g_out, "PREPFAIL %d\n", rc); fflush(g_out); continue; }
